@@ -28,13 +28,15 @@ def main():
     ap.add_argument('--checks', default='')
     ap.add_argument('--seeds', default='')
     ap.add_argument('--skip-demo', action='store_true')
+    ap.add_argument('--skip-suite', action='store_true',
+                    help='do not touch /repo at all (e.g. while a background sweep reads it)')
     a = ap.parse_args()
     sd = os.path.abspath(a.seeddir)
     patch = os.path.join(sd, 'patch.diff')
     meta = json.load(open(os.path.join(sd, 'meta.json')))
     prop = meta.get('property')
     checks = [c for c in a.checks.split(',') if c] or [prop]
-    assert sh('git -C /repo status --porcelain').stdout.strip() == '', '/repo not clean'
+    assert a.skip_suite or sh('git -C /repo status --porcelain').stdout.strip() == '', '/repo not clean'
     result = {'property': prop, 'checks': {}}
     # demo in a scratch worktree
     if not a.skip_demo:
@@ -54,13 +56,16 @@ def main():
         finally:
             sh('git -C /repo worktree remove --force %s' % wt)
     # (2) the pinned suite on /repo itself with the patch applied, undone straight afterwards
-    try:
+    if a.skip_suite:
+        result['suite'] = 'skipped'
+    else:
+      try:
         r = sh('git -C /repo apply %s' % patch)
         assert r.returncode == 0, r.stderr
         t = sh('cd /repo && /venv/bin/python -m pytest -q -p no:cacheprovider --timeout=900 '
                '--continue-on-collection-errors 2>&1 | tail -1')
         result['suite'] = t.stdout.strip()
-    finally:
+      finally:
         sh('git -C /repo checkout -- .')
     # (4) the checks against a scratch copy of the sources with the patch applied
     scratch = tempfile.mkdtemp(prefix='seed-', dir='/dev/shm')
